@@ -5,6 +5,7 @@ interpreted by the model; outcome distributions are computed exactly (stabilizer
 inputs: uniform on an affine subspace, as integer counts) or by a small dense
 simulator (non-stabilizer probes) and fed to the fitters through a duck-typed
 result object; the reported values are compared with Tr(rho P) from the model."""
+import copy
 import numpy as np
 
 from . import model as M, selftest
@@ -158,11 +159,25 @@ def dense_expectation(vec, p_xz, n):
 def build_circuits(kind, m, conn, N, qubits, prep_ops, group_strs=None):
     from . import impl
     prep = probe_circuit(prep_ops, N)
+    # the caller's preparation circuit is an arbitrary circuit object: every other one (by program length) carries
+    # user metadata and a name, as circuits coming out of a user's own pipeline do
+    if len(prep_ops) % 2 == 1:
+        prep.metadata = {"experiment": "probe", "tags": [1, 2]}
+        prep.name = "user-prep"
+    before = (impl.circuit_ops(prep, keep_measure=True), copy.deepcopy(prep.metadata), prep.name, prep.num_clbits)
     ql = None if qubits is None else list(qubits)
     if kind == "tomography":
-        return prep, impl.tomography.full_state_tomography_circuits(prep, conn, ql)
-    stab = impl.Stabilizer(list(group_strs))
-    return prep, [impl.tomography.stabilizer_measurement_circuit(prep, stab, conn, ql)]
+        out = impl.tomography.full_state_tomography_circuits(prep, conn, ql)
+    else:
+        stab = impl.Stabilizer(list(group_strs))
+        out = [impl.tomography.stabilizer_measurement_circuit(prep, stab, conn, ql)]
+    after = (impl.circuit_ops(prep, keep_measure=True), prep.metadata, prep.name, prep.num_clbits)
+    if after != before:
+        raise ValueError("the preparation circuit passed in was modified by the call (%s)" % (
+            "metadata" if after[1] != before[1] else "gates, name or registers"))
+    if any(c is prep for c in out):
+        raise ValueError("the preparation circuit object itself was returned as a measurement circuit")
+    return prep, out
 
 
 def expected_table(delivered, qubits, N):
